@@ -9,9 +9,11 @@ from vcommon import COQ, ROOT, Check, main_wrapper, run_impl, glist, gbool
 # ------------------------------------------------------------------ vocabulary
 TAGS = ["x", "y", "model", "mode", "android", "origin", "notes", "inner", "Lr"]   # letters only (pp.Word(pp.alphas))
 VALUES = ["a", "b", "ab", "ba", "a b", "bm25", "", "a.b", "x_1", "DONE", "ERROR", "RUNNING", "m.t", "it's", 'q"t',
-          "aab", "abab", "b0"]
-VALCHARS = "ab01_ ."
+          "aab", "abab", "b0", "a-b", "a_b", "r12", "rdd", "1", "a(b", "a\\b", "a\\tb", "c:\\new", "\\d", "a\\.b", "\\",
+          "a\\x41", "a\\0b", "a\\rb"]
+VALCHARS = "ab01_ .\\-t"
 RECHARS = "ab01_ mt"           # literal characters of generated regular expressions (no escaping needed)
+RESPECIAL = ".-()*+?|[]$^\\"    # written with a backslash in a regular expression: \. \( \\ ...
 TASKS = ["m.t", "n.t", "pkg.mod.task", "other.task", "plain", "m.u", "a.b.t"]
 HASHES = ["0a1b", "1c2d", "2e3f", "3a4b", "4c5d", "5e6f", "6a7b", "7c8d"]
 XPS = ["XA", "XB", "main", "exp1"]
@@ -32,11 +34,20 @@ def gen_job(rng, task=None, hsh=None):
     alive = pid and rng.random() < 0.55
     if rng.random() < 0.08:                      # the relaunched-after-failure layout, explicitly
         done, failed, pid, alive = False, True, True, True
+    pidfile = "ok"
+    if pid and rng.random() < 0.2:
+        # the window the scheduler leaves between starting the process and closing the pid file (or a scheduler killed
+        # in it): the file is there, empty or cut, and the job process runs
+        pidfile = rng.choice(["empty", "truncated"])
+        alive = rng.random() < 0.85
     tags = {}
     for t in rng.sample(TAGS, rng.choice([0, 1, 2, 2, 3, 4])):
         tags[t] = gen_value(rng)
-    return dict(task=task or rng.choice(TASKS), hash=hsh or rng.choice(HASHES), done=done, failed=failed, pid=pid,
-                alive=alive, tags=tags)
+    j = dict(task=task or rng.choice(TASKS), hash=hsh or rng.choice(HASHES), done=done, failed=failed, pid=pid,
+             alive=alive, tags=tags)
+    if pidfile != "ok":
+        j["pidfile"] = pidfile
+    return j
 
 
 def gen_var(rng):
@@ -48,12 +59,21 @@ def gen_var(rng):
     return rng.choice(TAGS)
 
 
+def unreadable(j):
+    return bool(j["pid"]) and j.get("pidfile", "ok") != "ok"
+
+
+def maybe_alive(j):
+    """a process of the job is alive, or nobody can tell: the pid file is there but cannot be read (yet)"""
+    return bool(j["pid"]) and (j["alive"] or unreadable(j))
+
+
 def true_state(j):
     """The state of a job directory as the property understands it."""
     if j["done"]:
         return "DONE"
     if j["failed"]:
-        return "RUNNING" if (j["pid"] and j["alive"]) else "ERROR"
+        return "RUNNING" if maybe_alive(j) else "ERROR"
     if j["pid"]:
         return "RUNNING"
     return None
@@ -88,6 +108,10 @@ def gen_regex(rng, depth, hint=None):
         for ch in hint[:k]:
             if ch in RECHARS and rng.random() < 0.7:
                 parts.append(["chr", ch])
+            elif ch in RESPECIAL and rng.random() < 0.75:
+                parts.append(["chr", ch])                 # printed with a backslash
+            elif ch.isdigit() and rng.random() < 0.5:
+                parts.append(["digit"])                   # \d
             else:
                 parts.append(["any"])
             if rng.random() < 0.2:
@@ -99,7 +123,8 @@ def gen_regex(rng, depth, hint=None):
             r = p if r == ["eps"] else ["cat", r, p]
         return r
     if depth <= 0 or rng.random() < 0.3:
-        return rng.choice([["chr", rng.choice(RECHARS)], ["chr", rng.choice("ab")], ["any"], ["eps"]])
+        return rng.choice([["chr", rng.choice(RECHARS)], ["chr", rng.choice("ab")], ["any"], ["eps"],
+                           ["chr", rng.choice(RESPECIAL)], ["digit"]])
     k = rng.choice(["cat", "cat", "alt", "star"])
     if k == "star":
         return ["star", gen_regex(rng, depth - 1)]
@@ -181,7 +206,9 @@ def re_text(r, ctx="top"):
     if k == "eps":
         return "" if ctx == "top" else "(?:)"
     if k == "chr":
-        return r[1]
+        return r[1] if r[1] not in RESPECIAL else "\\" + r[1]
+    if k == "digit":
+        return "\\d"
     if k == "any":
         return "."
     if k == "cat":
@@ -190,7 +217,7 @@ def re_text(r, ctx="top"):
         return "(?:" + re_text(r[1], "top") + "|" + re_text(r[2], "top") + ")"
     if k == "star":
         inner = r[1]
-        if inner[0] in ("chr", "any"):
+        if inner[0] in ("chr", "any", "digit"):
             return re_text(inner, "cat") + "*"
         return "(?:" + re_text(inner, "top") + ")*"
     raise ValueError(k)
@@ -237,6 +264,11 @@ def g_re(r):
         return "REps"
     if k == "chr":
         return f"(RChr {ord(r[1])})"
+    if k == "digit":                                     # \d on ASCII values: one of 0..9
+        out = "(RChr 57)"
+        for d in range(56, 47, -1):
+            out = f"(RAlt (RChr {d}) {out})"
+        return out
     if k == "any":
         return "RAny"
     return "(%s %s)" % ({"cat": "RCat", "alt": "RAlt", "star": "RStar"}[k], " ".join(g_re(x) for x in r[1:]))
@@ -265,7 +297,7 @@ def g_key(k):
 def g_job(j):
     tags = glist(f"({g_str(k)}, {g_str(v)})" for k, v in j["tags"].items())
     return (f"{{| j_task := {g_str(j['task'])}; j_hash := {g_str(j['hash'])}; j_done := {gbool(j['done'])}; "
-            f"j_failed := {gbool(j['failed'])}; j_pid := {gbool(j['pid'])}; j_alive := {gbool(j['alive'])}; "
+            f"j_failed := {gbool(j['failed'])}; j_pid := {gbool(j['pid'])}; j_alive := {gbool(maybe_alive(j))}; "
             f"j_tags := {tags} |}}")
 
 
@@ -587,8 +619,17 @@ def gen_near(rng, j, label=None):
     return dict(expr=e2, text=text, reading=tree, label=label)
 
 
+def has_backslash(a):
+    """a string of the test holds a backslash (escape of a regular expression, Windows path, ...)"""
+    if a["k"] == "eq":
+        return "const" in a["o"] and "\\" in a["o"]["const"]
+    if a["k"] in ("in", "notin"):
+        return any("\\" in x for x in a["l"])
+    return "\\" in re_text(a["re"])
+
+
 def hides_live(j):
-    return (not j["done"]) and j["failed"] and j["pid"] and j["alive"]
+    return (not j["done"]) and j["failed"] and j["pid"] and j["alive"] and not unreadable(j)
 
 
 def blame(case, ans, k=None):
@@ -605,7 +646,7 @@ def blame(case, ans, k=None):
         else:
             v = r["verdicts"].get(f"{k[0]}/{k[1]}")
             if v is None or v != o_atom(a, jobs[k]):
-                return a["k"]
+                return "backslash" if (v is not None and has_backslash(a)) else a["k"]
     return "chain"
 
 
@@ -616,9 +657,17 @@ def oracle(case, ans):
     if kind == "filter":
         j, e = case["job"], case["expr"]
         atom_ok = True
-        if ans["state"] != true_state(j):
+        if ans.get("state_exc"):
             atom_ok = False
-            if hides_live(j) and ans["state"] == "ERROR":
+            out.append(("C19:state-raises:unreadable-pid" if unreadable(j) else "C19:state-raises",
+                        f"JobInformation.state raises {ans['state_exc']}"))
+        elif ans["state"] != true_state(j):
+            atom_ok = False
+            if unreadable(j) and j["alive"] and ans["state"] == "ERROR":
+                out.append(("C19:state-hides-live-process:unreadable-pid",
+                            "JobInformation.state is ERROR for a relaunched job whose process runs and whose pid file is "
+                            "still empty or cut"))
+            elif hides_live(j) and ans["state"] == "ERROR":
                 out.append(("C19:state-hides-live-process",
                             "JobInformation.state is ERROR for a relaunched job whose process is alive"))
             else:
@@ -627,14 +676,21 @@ def oracle(case, ans):
         impl_lookup = lambda v, jj: ans["state"] if v == "@state" else lookup(v, jj)   # noqa: E731
         for a, r in zip(atoms_of(e), ans["atoms"]):
             want = o_atom(a, j)
+            uses_state = a["v"] == "@state" or (a["k"] == "eq" and a["o"].get("var") == "@state")
             if r["exc"] is not None:
                 atom_ok = False
-                out.append((f"C19:filter:{a['k']}-raises", f"a `{a['k']}` test raises {r['exc']}"))
+                if not (ans.get("state_exc") and uses_state):          # already reported with the state
+                    out.append((f"C19:filter:{a['k']}-raises", f"a `{a['k']}` test raises {r['exc']}"))
             elif r["v"] != want:
                 atom_ok = False
                 if r["v"] != o_atom(a, j, impl_lookup):     # not explained by the state alone
-                    out.append((f"C19:filter:{a['k']}-{str(r['v']).lower()}",
-                                f"a `{a['k']}` test answers {r['v']} where its documented meaning is {want}"))
+                    if has_backslash(a):
+                        out.append(("C19:filter:backslash-not-literal",
+                                    f"a `{a['k']}` test whose string holds a backslash answers {r['v']} where what is "
+                                    f"written means {want}: the string is not taken as it is written"))
+                    else:
+                        out.append((f"C19:filter:{a['k']}-{str(r['v']).lower()}",
+                                    f"a `{a['k']}` test answers {r['v']} where its documented meaning is {want}"))
         want = o_expr(e, j)
         r = ans["whole"]
         if atom_ok and (r["exc"] is not None or r["v"] != want):
@@ -678,7 +734,9 @@ def oracle(case, ans):
             else:
                 sel = lambda jj: o_tree(near_["reading"], jj)                      # noqa: E731
         if ans["exc"] is not None:
-            out.append((f"C19:clean-raises:{blame(case, ans)}", f"jobs clean raises {ans['exc']}"))
+            cause = ("unreadable-pid" if any(unreadable(jj) and jj["failed"] and not jj["done"] for jj in jobs.values())
+                     else blame(case, ans))
+            out.append((f"C19:clean-raises:{cause}", f"jobs clean raises {ans['exc']}"))
         want = set()
         for k, j in jobs.items():
             if not case["perform"]:
@@ -694,7 +752,8 @@ def oracle(case, ans):
         for k in removed:
             j = jobs[k]
             if (not j["done"]) and j["pid"] and j["alive"]:
-                out.append(("C19:clean-removes-running", "jobs clean removed the directory of a job whose process is alive"))
+                out.append(("C19:clean-removes-running" + (":unreadable-pid" if unreadable(j) else ""),
+                            "jobs clean removed the directory of a job whose process is alive"))
             elif k not in want:
                 if not case["perform"]:
                     out.append(("C19:clean-without-perform", "jobs clean removed a directory without --perform"))
@@ -872,6 +931,16 @@ def sweep_cases():
         out.append(dict(kind="filter", job=j, expr=dict(first=dict(k="notin", v="@state", l=STATES), rest=[])))
         for perform in (True, False):
             out.append(dict(kind="clean", ws=dict(jobs=[j], xps=[]), experiment=None, expr=None, perform=perform))
+    # the pid file is there but empty / cut while the job process runs (or not), with every marker combination
+    err = dict(first=dict(k="eq", v="@state", o=dict(const="ERROR")), rest=[])
+    for pf in ("empty", "truncated"):
+        for d, f in ((False, False), (False, True), (True, False), (True, True)):
+            for a in (True, False):
+                j = dict(task="pkg.mod.task", hash="0a1b", done=d, failed=f, pid=True, alive=a, tags={"x": "a"}, pidfile=pf)
+                out.append(dict(kind="filter", job=j, expr=err))
+                other = dict(task="pkg.mod.task", hash="1c2d", done=False, failed=True, pid=False, alive=False, tags={})
+                out.append(dict(kind="clean", ws=dict(jobs=[j, other], xps=[]), experiment=None,
+                                expr=err if a else None, perform=True))
     return out
 
 
@@ -992,7 +1061,8 @@ def run(c: Check):
             c.count(f"{kind}:xps={len(w['xps'])}")
             c.count(f"{kind}:removed={len(a['removed'])}")
             for j in w["jobs"]:
-                c.count("marker-state:" + str(true_state(j)) + ("+live" if j["pid"] and j["alive"] else ""))
+                c.count("marker-state:" + str(true_state(j)) + ("+live" if j["pid"] and j["alive"] else "")
+                        + ("+pid-unreadable" if unreadable(j) else ""))
             if kind == "clean":
                 c.count("clean:perform=" + str(case["perform"]))
                 c.count("clean:experiment=" + ("none" if not case["experiment"] else "given"))
